@@ -75,6 +75,11 @@ func genCase(t *rapid.T) aggh.XCase {
 		c.Flows[i].CorrS.IngAct = uint8(rapid.IntRange(0, 2).Draw(t, "ing_s"))
 		c.Flows[i].CorrD.IngAct = uint8(rapid.IntRange(0, 2).Draw(t, "ing_d"))
 	}
+	// a fourth flow whose source node's exporter has no destinationPodName element and whose
+	// destination node never reports: however often the source node repeats itself, the flow stays
+	// withheld until its retries are used up
+	c.Flows = append(c.Flows, aggh.FlowDef{Src: "10.0.0.7", Dst: "10.0.1.8", SPort: 1003, DPort: 8080, Proto: 6, Kind: aggh.KindInterNode, OmitPeerPod: true})
+	c.Flows[3].CorrS = genCorr(t, false, "s3")
 	if c.Flows[2].Kind != aggh.KindInterEgressDeny {
 		c.Flows[2].OmitEgress = rapid.Bool().Draw(t, "omit_egress")
 	}
@@ -87,8 +92,8 @@ func genCase(t *rapid.T) aggh.XCase {
 	for n := rapid.IntRange(2, 40).Draw(t, "n"); n > 0; n-- {
 		switch k := rapid.IntRange(0, 9).Draw(t, "op"); {
 		case k <= 4:
-			c.Ops = append(c.Ops, aggh.XOp{Kind: "rec", Flow: rapid.SampledFrom([]int{0, 0, 0, 1, 1, 2}).Draw(t, "flow"), Side: rapid.SampledFrom([]string{"S", "D"}).Draw(t, "side"),
-				Incomplete: rapid.IntRange(0, 5).Draw(t, "incomplete") == 0})
+			c.Ops = append(c.Ops, aggh.XOp{Kind: "rec", Flow: rapid.SampledFrom([]int{0, 0, 0, 1, 1, 2, 3}).Draw(t, "flow"), Side: rapid.SampledFrom([]string{"S", "D"}).Draw(t, "side"),
+				Incomplete: rapid.IntRange(0, 5).Draw(t, "incomplete") == 0, EndMode: rapid.SampledFrom([]string{"", "", "", "older", "equal"}).Draw(t, "end_mode")})
 		case k <= 6:
 			c.Ops = append(c.Ops, aggh.XOp{Kind: "advance", Hours: rapid.SampledFrom([]int{1, 3, 4, 6, 11}).Draw(t, "h")})
 		default:
